@@ -275,15 +275,25 @@ def run(eng: Engine, ck: Check):
     ctp = eng.func(SUTILS, 'create_term_pattern')
     ck.visited(ctp)
     comps = [x for x in calls_in(ctp.node) if unparse(x.func) == 're.compile']
-    ck.floor('R-C07-SPLIT.patterns', len(comps), 2)
     import re._constants as sc  # type: ignore
+    # one case per (compile call, template): `re.compile(T1..) if wildcard else re.compile(T2..)` as two statements under if / else, or one
+    # call whose template is chosen by a conditional expression (`template = T1 if wildcard else T2`)
+    pcases = []
     for x in comps:
+        fmt0 = x.args[0]
+        if isinstance(fmt0, ast.Call) and call_name(fmt0) == 'format' and isinstance(fmt0.func, ast.Attribute):
+            for conds_, leaf_ in ifexp_cases(expand_aliases(ctp, fmt0.func.value, 1)):
+                pcases.append((x, leaf_, conds_))
+        else:
+            pcases.append((x, None, []))
+    ck.floor('R-C07-SPLIT.patterns', len(pcases), 2)
+    for case_i, (x, leaf_, conds_) in enumerate(pcases):
         fl = kw(x, 'flags')
-        ck.ob('R-C07-SPLIT', ctp, x, 'term patterns are case-insensitive', fl is not None and 'IGNORECASE' in unparse(fl), unparse(fl), construct=f'pattern flags {comps.index(x)}')
+        ck.ob('R-C07-SPLIT', ctp, x, 'term patterns are case-insensitive', fl is not None and 'IGNORECASE' in unparse(fl), unparse(fl), construct=f'pattern flags {case_i}')
         fmt = x.args[0]
-        tmpl = const(fmt.func.value) if isinstance(fmt, ast.Call) and call_name(fmt) == 'format' else None
+        tmpl = const(leaf_) if leaf_ is not None and isinstance(const(leaf_), str) else None
         esc = isinstance(fmt, ast.Call) and fmt.args and unparse(fmt.args[0]) == 're.escape(term)'
-        ck.ob('R-C07-SPLIT', ctp, x, 'the term is embedded through re.escape (punctuation in a term is literal)', bool(esc), unparse(fmt)[:80], construct=f'pattern escape {comps.index(x)}')
+        ck.ob('R-C07-SPLIT', ctp, x, 'the term is embedded through re.escape (punctuation in a term is literal)', bool(esc), unparse(fmt)[:80], construct=f'pattern escape {case_i}')
         if tmpl is None:
             raise AnalysisError('create_term_pattern: template idiom not recognised')
         tree = regex_tree(tmpl.replace('{}', 'TERM'))
@@ -318,13 +328,13 @@ def run(eng: Engine, ck: Check):
                         kinds.append(('ahead', frozenset(class_items(alt[0]) or set())))
                 trail_ok = ('end', None) in kinds and ('ahead', frozenset(want)) in kinds and len(kinds) == 2
         ck.ob('R-C07-SPLIT', ctp, x, 'a term matches only at a word boundary: preceded by start or a [\\W_] char, followed by a [\\W_] char or end — the same class the index splits on',
-              lead_ok and trail_ok, f'template {tmpl!r}: leading ok {lead_ok}, trailing ok {trail_ok}', construct=f'pattern boundaries {comps.index(x)}')
-        gs = [(unparse(e), pol) for e, pol, _ in eng.guards_at(ctp, x)]
+              lead_ok and trail_ok, f'template {tmpl!r}: leading ok {lead_ok}, trailing ok {trail_ok}', construct=f'pattern boundaries {case_i}')
+        gs = [(unparse(e), pol) for e, pol, _ in eng.guards_at(ctp, x)] + [(unparse(e_), p_) for e_, p_ in conds_]
         is_wild = ('wildcard', True) in gs
         mid = items[1:-1]
         has_prefix = any(it[0] is sc.MAX_REPEAT and it[1][0] == 0 for it in mid)
         ck.ob('R-C07-SPLIT', ctp, x, 'only the wildcard variant allows extra word characters before the term', has_prefix == is_wild, f'{gs} prefix allowed {has_prefix}',
-              construct=f'pattern wildcard prefix {comps.index(x)}')
+              construct=f'pattern wildcard prefix {case_i}')
 
     # ---- R-C07-MATCHERS
     mi = eng.func(QMODEL, 'SearchQuery.matchers_iter')
